@@ -1,7 +1,7 @@
 From Coq Require Extraction.
 From Coq Require Import ExtrOcamlBasic.
-From H3V Require Import Base.Bytes Spec.GoawaySpec Spec.DrainSpec Model.Varint Model.Goaway Model.Ongoing.
+From H3V Require Import Base.Bytes Spec.GoawaySpec Spec.DrainSpec Model.Varint Model.Goaway Model.Ongoing Model.GoawayWrite.
 Extraction Language OCaml.
 Extraction "C09_model.ml"
   N.add N.mul N.div_eucl N.ltb N.leb N.eqb
-  dstep world0 w_srv s_dead astate0 app_step drain_check drain_fail_at drain_okb.
+  dstep world0 bstep bworld0 bw_w w_srv s_dead astate0 app_step drain_check drain_fail_at drain_okb.
